@@ -25,6 +25,9 @@ and reports a DIFF if they differ, the result is the only input of the reward co
   lk.surplusfund app asset u x                    <o> <S>
   lk.v2sclose  app asset u lot                    <o> <S>
   lk.v2dclose  app asset c d                      <o> <S>
+  lk.config    amap app asset surplus debt active | esm app on | kill app on | english app on      <o> <S>
+  lk.activate  gen(1|2) app:asset;app:asset;…     <o> <S>   (one begin-block: x/auction BeginBlocker resp. liquidationsV2 BeginBlocker;
+                                                             the keys are the auction-mapping entries in store order)
   lk.sync                                             <S>   (real steps that the model does not describe: bids, vault-side moves)
 `<obs>` = what the real call added to `LockerTotalRewardsByAssetAppWise` (`-` when the call failed); compared with the reward
 the model computed.
@@ -32,7 +35,8 @@ the model computed.
 `<S>` = `L=id:owner:app:asset:net:ret:bh:bt;…|K=app:asset:deposited:id,id,…;…|F=app:asset:net;…|B=acct:asset:amount;…|
 T=id:app:raw;…|C=app:asset:lsr:bh:bt:sthr:dthr:lot:dlot;…|W=app:asset;…`
 with `acct` ∈ `u<n>` | `locker` | `collector`, every list sorted by key, zero balances omitted; `T` = reward trackers (raw 10^-18),
-`C` = collector lookup table, `W` = (app, asset) pairs whitelisted for internal rewards.
+`C` = collector lookup table, `W` = (app, asset) pairs whitelisted for internal rewards; further
+`|A=app:asset:surplus:debt:active;…|E=apps with ESM executed|X=apps with kill switch on|G=apps with English auctions activated`.
 
 Outputs: `DIFF` (model ≠ code: outcome or any field of the projection), `MON` (a property monitor is false on the REAL state /
 REAL call), `BAD` (protocol). After every line the model state is replaced by the real one, so one divergence is reported once.
@@ -90,6 +94,13 @@ def parseCL? (t : String) : Option ((Nat × Nat) × CL) :=
     pure ((← ap.toNat?, ← a.toNat?), c)
   | _ => none
 
+def parseAMap? (t : String) : Option ((Nat × Nat) × AMap) :=
+  match t.splitOn ":" with
+  | [ap, a, sp, d, ac] => do
+    let m : AMap := { surplus := ← parseBool? sp, debt := ← parseBool? d, active := ← parseBool? ac }
+    pure ((← ap.toNat?, ← a.toNat?), m)
+  | _ => none
+
 def parseLk? (t : String) : Option ((Nat × Nat) × Lk) :=
   match t.splitOn ":" with
   | [ap, a, d, ids] => do pure ((← ap.toNat?, ← a.toNat?), { deposited := ← d.toInt?, ids := ← parseNatList ids })
@@ -118,9 +129,14 @@ def parseState (cfg : State) (t : String) : Option State := do
   let ts ← (section? parts "T") >>= parseList parseTracker?
   let cs ← (section? parts "C") >>= parseList parseCL?
   let ws ← (section? parts "W") >>= parsePairs
+  let am ← (section? parts "A") >>= parseList parseAMap?
+  let es ← (section? parts "E") >>= parseNatList
+  let xs ← (section? parts "X") >>= parseNatList
+  let gs ← (section? parts "G") >>= parseNatList
   let maxId := ls.foldl (fun m p => max m p.1.1) cfg.lastId
   pure { cfg with bank := bs, lockers := ls.map (·.1), lookup := ks, fees := fs, lastId := maxId,
-                  ltime := ls.map (fun p => (p.1.1, p.2)), trackers := ts, collk := cs, rewardWl := ws }
+                  ltime := ls.map (fun p => (p.1.1, p.2)), trackers := ts, collk := cs, rewardWl := ws,
+                  amap := am, esmOn := es, killOn := xs, englishOn := gs }
 
 def parseRw? (t : String) : Option Rw :=
   if t = "none" then some .none
@@ -153,6 +169,10 @@ structure Norm where
   ts : List ((Nat × Nat) × Dec)
   cs : List ((Nat × Nat) × CL)
   ws : List (Nat × Nat)
+  am : List ((Nat × Nat) × AMap)
+  es : List Nat
+  xs : List Nat
+  gs : List Nat
   deriving DecidableEq
 
 def dedupKeys {K V} [DecidableEq K] (s : Store K V) : Store K V :=
@@ -167,7 +187,11 @@ def norm (s : State) : Norm :=
     lt := (dedupKeys s.ltime).mergeSort (fun a b => a.1 ≤ b.1)
     ts := ((dedupKeys s.trackers).filter (fun p => p.2 != 0)).mergeSort (fun a b => leNN a.1 b.1)
     cs := (dedupKeys s.collk).mergeSort (fun a b => leNN a.1 b.1)
-    ws := s.rewardWl.eraseDups.mergeSort leNN }
+    ws := s.rewardWl.eraseDups.mergeSort leNN
+    am := (dedupKeys s.amap).mergeSort (fun a b => leNN a.1 b.1)
+    es := s.esmOn.eraseDups.mergeSort (· ≤ ·)
+    xs := s.killOn.eraseDups.mergeSort (· ≤ ·)
+    gs := s.englishOn.eraseDups.mergeSort (· ≤ ·) }
 
 def showAcct : Acct → String
   | .user n => s!"u{n}" | .locker => "locker" | .collector => "collector" | .auction => "auction" | .auctionV2 => "auctionV2"
@@ -180,7 +204,9 @@ def showNorm (n : Norm) : String :=
   "|LT=" ++ ";".intercalate (n.lt.map fun p => s!"{p.1}:{p.2.1}:{p.2.2}") ++
   "|T=" ++ ";".intercalate (n.ts.map fun p => s!"{p.1.1}:{p.1.2}:{p.2}") ++
   "|C=" ++ ";".intercalate (n.cs.map fun p => s!"{p.1.1}:{p.1.2}:{p.2.lsr}:{p.2.bh}:{p.2.bt}:{p.2.surplusThr}:{p.2.debtThr}:{p.2.lot}:{p.2.debtLot}") ++
-  "|W=" ++ ";".intercalate (n.ws.map fun p => s!"{p.1}:{p.2}")
+  "|W=" ++ ";".intercalate (n.ws.map fun p => s!"{p.1}:{p.2}") ++
+  "|A=" ++ ";".intercalate (n.am.map fun p => s!"{p.1.1}:{p.1.2}:{p.2.surplus}:{p.2.debt}:{p.2.active}") ++
+  "|E=" ++ showNatList n.es ++ "|X=" ++ showNatList n.xs ++ "|G=" ++ showNatList n.gs
 
 /-! ### monitors on the real states -/
 
@@ -356,6 +382,22 @@ def handle (st : St) (seq : String) (f : List String) : St × List String :=
     | some r =>
       let carried := (dedupKeys st.s.bank).filter fun q => !compared q.1.1
       ({ st with s := { r with bank := r.bank ++ carried } }, (stateMonitors st.s r).map fun n => s!"MON\t{seq}\t{n}")
+  | ["lk.config", "amap", ap, a, sp, d, ac, o, ss] =>
+    match ap.toNat?, a.toNat?, parseBool? sp, parseBool? d, parseBool? ac with
+    | some ap, some a, some sp, some d, some ac => plain (.config (.amap ap a { surplus := sp, debt := d, active := ac })) o ss
+    | _, _, _, _, _ => bad
+  | ["lk.config", kind, ap, on, o, ss] =>
+    match ap.toNat?, parseBool? on with
+    | some ap, some on =>
+      if kind = "esm" then plain (.config (.esm ap on)) o ss
+      else if kind = "kill" then plain (.config (.kill ap on)) o ss
+      else if kind = "english" then plain (.config (.english ap on)) o ss
+      else bad
+    | _, _ => bad
+  | ["lk.activate", g, ks, o, ss] =>
+    match g.toNat?, parsePairs ks with
+    | some g, some ks => plain (.activate (g == 2) ks) o ss
+    | _, _ => bad
   | ["lk.fund", u, a, x, o, ss] =>
     match u.toNat?, a.toNat?, x.toInt? with
     | some u, some a, some x => plain (.fund u a x) o ss
